@@ -32,6 +32,9 @@ CHECKS = {
  'C02': dict(tech=B + '; the bisection loop of splint is cut with an inductive invariant (no unrolling)', cat='model_checking',
              text='splint proved for every table length 1..1e9: range protocol with the 1e-7 band, bracketing interval, cubic formula, knot exactness, reads inside [1,n], termination; all 11 call sites proved to pass the knots/ordinates/second derivatives/length of the SAME quantity and element with the documented abscissa and result transform, to guard every table access, to propagate failure; Kissel log-log extension equals its documented clamped-slope form',
              note='double modelled as real; log/exp uninterpreted; n >= 1 for present tables and NShells <= 29 are DL2 facts; the binding of table contents to data files (DL1) is not yet machine-checked in this round'),
+ 'C13': dict(tech=B + '; local arrays as z3 arrays resolved by case split on element equality', cat='model_checking',
+             text='crystal_diffraction.c evaluated symbolically for an arbitrary user crystal: d-spacing equals the reciprocal-metric form, inversion and 1/n scaling, unit-cell volume formula, Bragg law or an error when no reflection exists, Q amplitude, Atomic_Factors outputs, structure factor = explicit sum over atoms with the per-element cache for equal/distinct elements and all 12 flag combinations, invalid flag / Z / NULL crystal errors, additivity in the flags and Friedel law on the proved form',
+             note='double modelled as real; trig/sqrt/asin uninterpreted with the stated axioms; <= 2 atoms (quick) / 3 (thorough); |Miller| <= 64; positive-definite cell assumed (DL2 for built-ins not yet machine-checked); (0,0,0) limit uses FF_Rayl(Z,0)=Z from C02'),
 }
 NA = {
  'C19': 'no symbolic engine for Java/JVM bytecode is installed (no JBMC/SPF); a hand-written Java->SMT translator for 5900 lines using ByteBuffer I/O, exceptions and collections is out of reach; see DESIGN.md C19',
